@@ -159,6 +159,13 @@ def irset(r, toggle: bool = None, special: bool = None, density: float = None, l
         para = _b36(i)
         rest = max(1, total - len(para) - 1)
         hexcode = "".join(r.choice("0123456789ABCDEF") for _ in range(rest))
+        x2 = r.random()
+        if long_codes and x2 < 0.03:
+            para, hexcode = "", "E" + _b36(i) + hexcode[:6]          # empty first part: the text starts with the separator
+        elif long_codes and x2 < 0.06:
+            para, hexcode = "P" + _b36(i), ""                        # empty second part: the text ends with the separator
+        elif long_codes and x2 < 0.07 and not any(w["Para"] == "" and w["HexCode"] == "" for w in waves):
+            para, hexcode = "", ""                                   # the shortest possible text: the separator alone (1 byte)
         waves.append({"Key": k, "Para": para, "HexCode": hexcode})
     return {"IRSetID": rid, "OnOffType": 1 if toggle else 0, "IRWaveList": waves}
 
